@@ -38,6 +38,7 @@ type Engine struct {
 	workers int
 
 	fnInfos sync.Map
+	modelGlobalNames map[string]bool
 	pmMu    sync.Mutex
 	pmCache map[*ssa.Function]*ssa.Function
 
@@ -121,6 +122,17 @@ func LoadEngine(repo, harnessDir string, pkgDirs []string) (*Engine, error) {
 	}
 	for _, sp := range prog.AllPackages() {
 		e.ssaByPath[sp.Pkg.Path()] = sp
+	}
+	e.modelGlobalNames = map[string]bool{}
+	for _, sp := range e.harnessSSA {
+		for _, mem := range sp.Members {
+			if g, ok := mem.(*ssa.Global); ok {
+				pos := prog.Fset.Position(g.Pos())
+				if strings.Contains(filepath.Base(pos.Filename), "zz_verif_") {
+					e.modelGlobalNames[sp.Pkg.Path()+"."+g.Name()] = true
+				}
+			}
+		}
 	}
 	e.errorType = types.Universe.Lookup("error").Type()
 	if ep := e.ssaByPath["errors"]; ep != nil {
@@ -215,6 +227,11 @@ type Worker struct {
 	stdInit    map[string]bool
 	consts     map[*ssa.Const]Value
 	envPool    map[*fnInfo][][]Value
+}
+
+// isModelGlobal: package-level variables declared in the injected harness files.
+func (e *Engine) isModelGlobal(g *ssa.Global) bool {
+	return e.modelGlobalNames[g.Pkg.Pkg.Path()+"."+g.Name()]
 }
 
 func (e *Engine) findHarness(name string) (*ssa.Package, *ssa.Function) {
